@@ -4,10 +4,19 @@
    state height, store height, queue records in key order, seen-set, mempool, everything GetTxs returned,
    every batch the sequencer handed out); [mismatches] lists the cases on which the model disagrees.
    A write-fault item is observed as: result class, the writes that reached the datastore and — at its place among
-   them — the attempt that was made to fail (WFail). *)
+   them — the attempt that was made to fail (WFail).  A produce step whose ExecuteTxs call fails (IExecFail) is observed
+   as result 12 and the writes up to the call; a produce step with a reap in its middle (IMid) as the result of the
+   step and the writes of both in the order in which they reached the datastore. *)
 From Coq Require Import NArith ZArith List Bool Arith.
 From Verif Require Import Model.Reaper.
 Import ListNotations.
+
+(* compact notation for the cases file: runs of consecutive transaction ids (the count-boundary stream hands off
+   thousands of transactions at once) *)
+Definition rng (a n : N) : list N := map (fun i => (a + N.of_nat i)%N) (seq 0 (N.to_nat n)).
+Definition arrivals (a n : N) : list item := map IArrive (rng a n).
+Definition arr_obs (n : N) : list (N * list wr) := repeat (0%N, []) (N.to_nat n).
+Definition seens (a n : N) : list wr := map WSeen (rng a n).
 
 Fixpoint list_eqb {A} (e : A -> A -> bool) (a b : list A) : bool :=
   match a, b with
@@ -64,10 +73,48 @@ Definition set_eqb (a b : list tx) : bool := forallb (fun t => memb t b) a && fo
 
 (* 1 = per-item observations differ; 2 = block records / heights; 3 = queue; 4 = seen-set; 5 = mempool;
    6 = taken; 7 = released; 8 = running flag *)
+(* one pass over the history: the state after an item and what is observed of it, the acts of the item computed once
+   ([run_obs_spec]: this IS (run, observations); hand-offs of thousands of transactions make the difference) *)
+Definition step_obs (max : N) (gt : Z) (s : st) (it : item) : st * (N * list wr) :=
+  match it with
+  | IRun a =>
+      let '(l, c) := acts_of max gt s a in
+      let s' := apply_acts (pre s a) l in
+      (match a with ABoot => set_up true s' | _ => s' end, (c, writes_of l))
+  | ICrash a k e =>
+      let '(l, c) := acts_of max gt s a in
+      let l' := cut k e l in
+      (set_up false (apply_acts (pre s a) l'), ((if (c =? 6)%N then 6%N else 7%N), writes_of l'))
+  | IExecFail ts =>
+      let '(l, c) := execfail_acts_of s ts in (apply_acts s l, (c, writes_of l))
+  | _ => (step max gt s it, observe max gt s it)
+  end.
+
+Lemma step_obs_spec max gt s it : step_obs max gt s it = (step max gt s it, observe max gt s it).
+Proof.
+  destruct it as [t | a | a k e | a k | ts | ts p]; try reflexivity.
+  - cbn [step_obs step observe item_acts]. destruct (acts_of max gt s a) as [l c]. reflexivity.
+  - cbn [step_obs step observe item_acts]. destruct (acts_of max gt s a) as [l c]. reflexivity.
+  - cbn [step_obs step observe item_acts]. destruct (execfail_acts_of s ts) as [l c]. reflexivity.
+Qed.
+
+Fixpoint run_obs (max : N) (gt : Z) (s : st) (h : list item) : st * list (N * list wr) :=
+  match h with
+  | [] => (s, [])
+  | it :: r => let '(s', o) := step_obs max gt s it in
+               let '(sf, os) := run_obs max gt s' r in (sf, o :: os)
+  end.
+
+Lemma run_obs_spec max gt h : forall s, run_obs max gt s h = (run max gt s h, observations max gt s h).
+Proof.
+  induction h as [|it h IH]; intros s; [reflexivity|].
+  cbn [run_obs run observations]. rewrite step_obs_spec, IH. reflexivity.
+Qed.
+
 Definition check_case (c : rcase) : list N :=
-  let s := final (c_max c) (c_gt c) (c_hist c) in
+  let '(s, os) := run_obs (c_max c) (c_gt c) st0 (c_hist c) in
   let f := c_fin c in
-  (if list_eqb obs_eqb (observations (c_max c) (c_gt c) st0 (c_hist c)) (c_obs c) then [] else [1%N]) ++
+  (if list_eqb obs_eqb os (c_obs c) then [] else [1%N]) ++
   (if list_eqb2 blk_eqb (blocks s) (f_blocks f) && Nat.eqb (sh s) (f_sh f) && Nat.eqb (th s) (f_th f) then [] else [2%N]) ++
   (if batches_eqb (stale s ++ queue s) (f_queue f) then [] else [3%N]) ++
   (if set_eqb (seen s) (f_seen f) then [] else [4%N]) ++
